@@ -17,9 +17,11 @@ import (
 	"pgregory.net/rapid"
 
 	"verifharness/hx"
+	"verifharness/observe"
+	"verifharness/wire"
 )
 
-func TestMain(m *testing.M) { hx.Main(m) }
+func TestMain(m *testing.M) { wire.Init(true); hx.Main(m) }
 
 // All tests in this package run under the race detector; a race report is a
 // violation (the driver sets GORACE=halt_on_error).
@@ -58,7 +60,13 @@ func TestC06RoundRobinExactShares(t *testing.T) {
 		// equal weights give a ring of n slots: the cursor wraps around all the time
 		equal := rapid.IntRange(0, 2).Draw(t, "equalweights") == 0
 		var cfg strings.Builder
-		for i := 0; i < n; i++ {
+		idx := make([]int, n)
+		for i := range idx {
+			idx[i] = i
+		}
+		idx = rapid.Permutation(idx).Draw(t, "targetorder") // registration order is not alphabetical order
+		watched := rapid.Bool().Draw(t, "admin-endpoints-read-the-table-meanwhile")
+		for _, i := range idx {
 			fmt.Fprintf(&cfg, "route add svc /p http://t%d:80/", i)
 			k := rapid.IntRange(0, 3).Draw(t, "wkind")
 			if equal {
@@ -98,10 +106,16 @@ func TestC06RoundRobinExactShares(t *testing.T) {
 		run(G, func(g int) {
 			m := map[string]int{}
 			for i := 0; i < per; i++ {
+				if watched && g == 0 && i%97 == 13 {
+					observe.Poke(conT) // the admin UI / API lists the table while requests are routed from it
+				}
 				m[lookup(conT, cache)]++
 			}
 			counts[g] = m
 		})
+		if watched {
+			hx.Class("rr-twin-table:admin-endpoints-reading-meanwhile")
+		}
 		got := map[string]int{}
 		for _, m := range counts {
 			for k, v := range m {
@@ -217,6 +231,7 @@ func TestC06HandlerIsolation(t *testing.T) {
 		cache := route.NewGlobCache(rapid.IntRange(1, 4).Draw(t, "cachesize"))
 		rt := &countingRT{}
 		p := &proxy.HTTPProxy{
+			Stats:     wire.Stats(),
 			Transport: rt,
 			Lookup: func(r *http.Request) *route.Target {
 				return cur.Load().(route.Table).Lookup(r, "", route.Picker["rr"], route.Matcher["prefix"], cache, false)
